@@ -47,6 +47,29 @@ class _StopRun(Exception):
     pass
 
 
+class RunMathShim(symx.MathShim):
+    """cos/sin of a concrete angle as an exact rational point of the unit circle (ideal-real model of a rotation:
+    the floats math.cos(x), math.sin(x) do not satisfy c^2 + s^2 = 1 exactly, which is a rounding effect)."""
+
+    @staticmethod
+    def _point(x):
+        import fractions
+        t = fractions.Fraction(math.tan(x / 2.0)).limit_denominator(10 ** 6)
+        return (1 - t * t) / (1 + t * t), 2 * t / (1 + t * t)
+
+    @staticmethod
+    def cos(x):
+        if isinstance(x, (int, float)):
+            return symx.SymReal(symx.realval(RunMathShim._point(x)[0]))
+        return symx.MathShim().__getattr__("cos")(x)
+
+    @staticmethod
+    def sin(x):
+        if isinstance(x, (int, float)):
+            return symx.SymReal(symx.realval(RunMathShim._point(x)[1]))
+        return symx.MathShim().__getattr__("sin")(x)
+
+
 class HalfOpenRandom(stubs.SymRandom):
     """uniform(0, b) is b * random() with random() < 1 in CPython: for a lower end of exactly 0 the upper end is never
     returned (b * (1 - 2^-53) rounds below b for every double b); all other draws keep the documented closed range."""
@@ -469,7 +492,7 @@ def make_config_run(path, K, scratch, want_props, roots, stats):
                 if name.startswith("jellyfysh.event_handler") or name.startswith("jellyfysh.input_output_handler.input_handler"):
                     if mod is not None:
                         pmods.append(mod)
-            _, undo = jf.patch_math_random(pmods, ex, rnd=rnd)
+            _, undo = jf.patch_math_random(pmods, ex, rnd=rnd, math_shim=RunMathShim())
             undos.append(undo)
             undos.append(silence_warnings())
             undos.append(value_comparisons())
@@ -480,7 +503,7 @@ def make_config_run(path, K, scratch, want_props, roots, stats):
             # modules imported by the factory only now
             later = [m for n, m in list(sys.modules.items()) if m is not None and m not in pmods and
                      (n.startswith("jellyfysh.event_handler") or n.startswith("jellyfysh.input_output_handler"))]
-            _, undo = jf.patch_math_random(later, ex, rnd=rnd)
+            _, undo = jf.patch_math_random(later, ex, rnd=rnd, math_shim=RunMathShim())
             undos.append(undo)
             undos.append(silence_warnings())
             monitor = Monitor(ex, mediator, K, want_props, stats)
